@@ -298,6 +298,11 @@ static void vf_act(int act, const char *text, long leng, int start, int lineno, 
 		}
 	}
 #endif
+#ifdef VF_YYLMAX
+	/* %array: yytext holds YYLMAX characters including the terminating NUL; a longer token must end in the
+	 * documented fatal error, not be delivered */
+	if (leng >= VF_YYLMAX) vf_mismatch("an %array scanner delivered a token of YYLMAX or more characters", act, text, leng, start, lineno);
+#endif
 	seg = (int)leng - vf_R.more_len;
 	vf_cur_more_prefix = vf_R.more_len;
 	if (act != vf_R.rule)
